@@ -51,6 +51,7 @@ fn main() {
         vh::props::c06::child_main(cfg.seed, first, count, out.as_deref().unwrap_or("c06-child.json"));
         return;
     }
+    vh::report::set_current_seed(cfg.seed);
     let t0 = Instant::now();
     let Some(res) = run(&id, &cfg) else {
         eprintln!("unknown property {id}");
